@@ -146,6 +146,16 @@
 
 typedef void* var;
 
+/* Verification hooks (off unless built with -DCELLO_VERIF) */
+
+#ifdef CELLO_VERIF
+extern void (*cello_verif_yield)(int site);
+#define CELLO_VERIF_YIELD(S) \
+  do { if (cello_verif_yield) { cello_verif_yield(S); } } while (0)
+#else
+#define CELLO_VERIF_YIELD(S) do { } while (0)
+#endif
+
 #define is ==
 #define isnt !=
 #define not !
